@@ -1105,12 +1105,20 @@ class SortValues(BaseSetIndexSortValues):
 
         if isinstance(parent, Head):
             return NFirst(
-                self.frame, n=parent.n, _columns=self.by, ascending=self.ascending
+                self.frame,
+                n=parent.n,
+                _columns=self.by,
+                ascending=self.ascending,
+                na_position=self.na_position,
             )
 
         if isinstance(parent, Tail):
             return NLast(
-                self.frame, n=parent.n, _columns=self.by, ascending=self.ascending
+                self.frame,
+                n=parent.n,
+                _columns=self.by,
+                ascending=self.ascending,
+                na_position=self.na_position,
             )
 
         if isinstance(parent, Filter) and self._filter_passthrough_available(
